@@ -18,7 +18,6 @@ import (
 	"hash/fnv"
 	"os"
 	"runtime/debug"
-	"runtime/pprof"
 	"sort"
 	"strings"
 
@@ -82,6 +81,7 @@ type refl2 struct {
 	F32 float32
 	F64 float64
 	S   string
+	B   bool
 }
 type refl3 struct {
 	A int
@@ -171,8 +171,8 @@ func init() {
 		reg(false, structSource(fmt.Sprintf("Struct%v", strings.ReplaceAll(fmt.Sprintf("%q", ks), " ", ",")), ks...))
 	}
 	reg(false, reflSource("Refl{A,B int}", refl1{1, 2}, model{"A": iv(1), "B": iv(2)}))
-	reg(false, reflSource("Refl{int8,int16,int32,float32,float64,string}", refl2{1, 2, 1, 1.5, 2.5, "x"},
-		model{"I8": iv(1), "I16": iv(2), "I32": iv(1), "F32": fm(1.5), "F64": fm(2.5), "S": sm("x")}))
+	reg(false, reflSource("Refl{int8,int16,int32,float32,float64,string,bool}", refl2{1, 2, 1, 1.5, 2.5, "x", true},
+		model{"I8": iv(1), "I16": iv(2), "I32": iv(1), "F32": fm(1.5), "F64": fm(2.5), "S": sm("x"), "B": mv{K: 'b', I: 1}}))
 	reg(false, reflSource("Refl{A int; x int}", refl3{1, 2}, model{"A": iv(1), "x": iv(2)}))
 	reg(false, reflSource("Refl{A int; int64,uint,[]int,*int}", refl4{A: 1, I64: 2, U: 3}, model{"A": iv(1)}))
 	reg(false, reflSource("Refl{}", refl5{}, model{}))
@@ -366,9 +366,6 @@ func bfs(ctx *bex.Ctx, e *env, space string, cfg runCfg, srcOrder []string, dept
 			}
 			*idx++
 			mine := ctx.Mine(*idx) && !countOnly
-			if os.Getenv("C13_DEBUG") != "" {
-				fmt.Fprintf(os.Stderr, "STATE %d %s %v %s\n", *idx, space, cfg.Sources, pathString(nd.path))
-			}
 			shared, d := e.replay(cfg, nd.path)
 			if d != nil {
 				// cannot happen: the path was executed when the state was found
@@ -684,11 +681,6 @@ func runDeep(ctx *bex.Ctx, e *env) {
 var mainAlphabet = &alphabet{putKeys: poolKeys, replKeys: []string{"a", "b", "c"}, vals: []int{1, 2}}
 
 func run(ctx *bex.Ctx) {
-	if p := os.Getenv("C13_PROF"); p != "" {
-		f, _ := os.Create(fmt.Sprintf("%s.%d", p, ctx.Shard))
-		pprof.StartCPUProfile(f)
-		defer pprof.StopCPUProfile()
-	}
 	debug.SetGCPercent(400)
 	e := newEnv()
 	// depth = number of operations of a history, "new <source>" included
@@ -708,7 +700,9 @@ func run(ctx *bex.Ctx) {
 	st := &bfsStats{}
 	al := *mainAlphabet
 	al.maxSrcAt = depth
-	bfs(ctx, e, "bfs-main", runCfg{}, mainSources, depth, &al, seen, shapes, &idx, st)
+	if !strings.Contains(os.Getenv("C13_SKIP"), "main") { // development aid
+		bfs(ctx, e, "bfs-main", runCfg{}, mainSources, depth, &al, seen, shapes, &idx, st)
+	}
 	ctx.SpaceDone(fmt.Sprintf("all histories of <= %d operations from the empty pool over {new E,L,R,S,F,B; put(k,v) k in {a,b,c,\"\"} v in {1,2}; replace(m->{k:v}) k in {a,b,c}; replace(m->h); eval; map; accept x2; h+h; combine}; no handle is ever dropped (pool <= %d)", depth, depth))
 	if ctx.Shard == 0 {
 		ctx.Add("states", st.states)
@@ -792,11 +786,27 @@ func replay(repro map[string]any) (string, bool) {
 	return sb.String(), still
 }
 
+// extra adds the bound description and the fixpoint statement to the evidence.
+func extra(merged *bex.Result, cov map[string]any) {
+	d := merged.Counters["bfs_main_completed_depth"]
+	last := merged.Counters[fmt.Sprintf("bfs_main_new_shapes_at_depth_%d", d)]
+	cov["bounds"] = map[string]any{
+		"bfs_main_depth_completed": d,
+		"key_pool":                 poolKeys,
+		"values":                   []int{1, 2},
+		"sources_main":             mainSources,
+		"sources_aux":              len(auxSources),
+		"pool":                     "no handle dropped in the BFS spaces (pool <= depth); deep families keep base, {c:1} and the two newest chain handles",
+	}
+	cov["fixpoint_of_new_shapes_reached"] = false
+	cov["fixpoint_note"] = fmt.Sprintf("no fixpoint exists: storage wrappers nest without bound (e.g. Merge(x,List()) for every x + {}); the deepest completed BFS level %d still found %d new storage shapes. Longer histories are covered only by the deep replace-chain families", d, last)
+}
+
 func main() {
 	bex.Main(&bex.Check{
 		ID:    "C13",
 		Level: "model_checking",
-		Rule: "explicit-state BFS over operation histories on the real value.Map objects: a state is the pool of live handles, canonical key = sorted (model, complete dump of the storage-wrapper tree incl. listMap key order, ReplaceMap depth and hidden replacement entries) per handle; every transition is executed on objects rebuilt from fresh sources by replaying the shortest path, then every observer runs on every live handle against the Go-map model fixed at creation. states = distinct canonical keys; transitions = operation applications (including the ones that must fail and the ones whose result is already live); traces_validated_against_impl = transitions followed by the full observation (= transitions: each is validated by the worker owning its frontier state). distinct_nontrivial = distinct states holding at least one handle with an Append/Merge/Replace wrapper",
+		Rule:  "explicit-state BFS over operation histories on the real value.Map objects: a state is the pool of live handles, canonical key = sorted (model, complete dump of the storage-wrapper tree: wrapper nesting, stored keys and values, ReplaceMap depth, hidden replacement entries; entries of listMap leaves sorted, because lists derived from Go-map-backed storage inherit Go's random iteration order) per handle. Every transition is executed on objects rebuilt from fresh sources by replaying the shortest path, then every observer runs on every live handle against the Go-map model fixed at creation, and the storage dump of every older handle is compared with its dump before the operation. states = distinct canonical keys; transitions = operation applications (including the ones that must fail and the ones whose result is already live); traces_validated_against_impl = transitions followed by the full observation (= transitions when the run completes: each is validated by the worker owning its frontier state; all workers build the same state graph). distinct_nontrivial = distinct BFS states holding at least one handle with an Append/Merge/Replace wrapper + distinct states of the deep families",
 		Assumptions: []string{
 			"replace with replacement keys outside the original key set: the property does not say added or ignored; either is accepted for the new handle (decided by its iteration), then all observers must agree with that reading",
 			"combine with a key missing in the other map: error or intersection accepted",
@@ -804,10 +814,13 @@ func main() {
 			"reflection wrappers: the model has the fields of the kinds the wrapper maps (int8/16/32/int, bool, float32/64, string)",
 			"scalar formatting (Int/Float/String ToString) is not under test: expected texts are rendered by the library's own scalar ToString",
 			"the storage dump of the accessor covers every field the map code reads (closures of struct/function wrappers are fixed per source)",
+			"a + whose first operand hides (finding F13a) a key of the second operand is validated but its result is not explored further: whether Merge fails on the hidden key or is let through by a hidden \"\" (F13b) depends on Go's random map iteration order",
+			"createLowPass(name,..).initial(p) with a name that p already has: error or replacement accepted (the property does not list this constructor)",
 		},
 		QuickBudget: 55e9, ThoroughBudget: 24 * 60e9,
 		Run:              run,
 		Replay:           replay,
 		CrashIsViolation: true,
+		Extra:            extra,
 	})
 }
